@@ -11,7 +11,9 @@ extern "C" void h_c15_setup() {
     "colvar {\n name p\n width 90.0\n lowerBoundary -180.0\n upperBoundary 180.0\n distanceZ {\n main { atomNumbers 5 }\n ref { atomNumbers 6 }\n period 360.0\n }\n}\n"
     "histogram {\n name h1\n colvars d\n}\n"
     "histogram {\n name h2\n colvars z p\n}\n"
-    "histogram {\n name h3\n colvars d\n grid {\n lowerBoundary 0.5\n upperBoundary 2.0\n width 0.75\n }\n}\n");
+    "histogram {\n name h3\n colvars d\n grid {\n lowerBoundary 0.5\n upperBoundary 2.0\n width 0.75\n }\n}\n"
+    "histogram {\n name h4\n colvars d\n grid {\n width 1.0\n }\n}\n"
+    "histogram {\n name h5\n colvars d\n grid {\n width 0.25\n }\n}\n");
 }
 
 static void place(cvm::real dval, cvm::real zval, cvm::real pval) {
@@ -66,6 +68,30 @@ extern "C" void h_c15_hist_custom() {
     verif_assert_eq(h->grid->data[i], pre[i] + (in_bin ? 1.0 : 0.0), i == 0 ? "hist_custom.bin0" : "hist_custom.bin1");
   }
 }
+
+// custom grid block that changes only the width (coarser / finer than the variable's own): the number of bins follows the new width
+static void custom_width(const char *bias, int nb, cvm::real w, const char *lnb, const char *lsz, const char *lbin, const char *ltot) {
+  colvarbias_histogram *h = dynamic_cast<colvarbias_histogram *>(e2e_bias(bias));
+  verif_assert((int) h->grid->number_of_points() == nb, lnb);
+  verif_assert((int) h->grid->data.size() == nb, lsz);
+  cvm::real pre[8];
+  for (int i = 0; i < nb && i < (int) h->grid->data.size(); i++) { pre[i] = verif_sym_double(CN[i]); h->grid->data[i] = pre[i]; }
+  cvm::real v = verif_sym_double("v");
+  verif_assume(v > 0.0 && v < 1000.0);
+  place(v, 0.0, 0.0);
+  px->colvars->it = 5; px->colvars->it_restart = 0;
+  verif_reach(bias);
+  int e = px->colvars->calc_colvars(); e |= px->colvars->calc_biases();
+  cvm::real total = 0.0;
+  for (int i = 0; i < nb && i < (int) h->grid->data.size(); i++) {
+    bool in_bin = (v >= 1.0 + w * i) & (v < 1.0 + w * (i + 1));
+    verif_assert_eq(h->grid->data[i], pre[i] + (in_bin ? 1.0 : 0.0), lbin);
+    total += h->grid->data[i] - pre[i];
+  }
+  verif_assert_eq(total, ((v >= 1.0) & (v < 3.0)) ? 1.0 : 0.0, ltot);
+}
+extern "C" void h_c15_hist_coarser() { custom_width("h4", 2, 1.0, "h4.nbins", "h4.data_size", "hist_coarser.bin", "hist_coarser.total_is_in_range_samples"); }
+extern "C" void h_c15_hist_finer() { custom_width("h5", 8, 0.25, "h5.nbins", "h5.data_size", "hist_finer.bin", "hist_finer.total_is_in_range_samples"); }
 
 // 2-D histogram (3 x 4 bins, second variable periodic): exactly the containing cell grows
 extern "C" void h_c15_hist2d() {
